@@ -1600,9 +1600,8 @@ impl SubRule {
                         // "Replace with output IPA.
                         let lc = res_word.syllables[sp.syll_index].replace_segment(sp.seg_index, seg, mods, &self.alphas, out_state.position)?;
                         total_len_change[sp.syll_index] += lc;
-                        if lc > 0 {
-                            last_pos.seg_index += lc.unsigned_abs() as usize;
-                        }
+                        // leave the cursor on the last copy of the segment as it now stands, so that the scan does not re-enter it
+                        last_pos.seg_index = sp.seg_index + res_word.seg_length_at(sp) - 1;
                         if self.input.len() == self.output.len() {
                             if state_index < self.input.len() -1 {
                                 last_pos.seg_index +=1;
@@ -1724,9 +1723,7 @@ impl SubRule {
                                             // as for an output outside a set: the whole (possibly long) segment is replaced
                                             let lc = res_word.syllables[sp.syll_index].replace_segment(sp.seg_index, seg, mods, &self.alphas, set_output[i].position)?;
                                             total_len_change[sp.syll_index] += lc;
-                                            if lc > 0 {
-                                                last_pos.seg_index += lc.unsigned_abs() as usize;
-                                            }
+                                            last_pos.seg_index = sp.seg_index + res_word.seg_length_at(sp) - 1;
                                             if self.input.len() == self.output.len() {
                                                 if state_index < self.input.len() -1 {
                                                     last_pos.seg_index +=1;
